@@ -172,6 +172,11 @@ def _main(a, prop, tier, seed, t0):
             else:
                 open_obls.append((ident, key[0], o))
     # obligations left open: retry alone with a doubled budget (guards against load-induced timeouts), then classify
+    if open_obls and violations:
+        # a counter-model was already found: the verdict is decided, the open obligations are not retried (keeps a failing run short)
+        for ident, tgt, o in open_obls:
+            undecided.append(f"{o['id']}: {o.get('reason', 'unknown')} (not retried: the run already has a refuted obligation)")
+        open_obls = []
     if open_obls:
         from pyvc.solve import TIMEOUT_S
         retry = prove.run(a.repo, sorted({(k, i) for (k, i), r in results.items() if r.get("ident") in {x[0] for x in open_obls}}),
